@@ -270,3 +270,83 @@ def sites(job):
             raise ValueError("unknown site kind " + kind)
         out["sites"][kind] = m
     return out
+
+
+# ------------------------------------------------------------------------------------------- several quantifiers in ONE action
+def quant(job):
+    """One action with SEVERAL quantified effects / conditions (harness/props/c06.py:quant_domain_text).
+    job: domain_text, names, objects [[name, type]], ents [[name, type]] (objects then constants: everything a quantifier
+    can range over), acts [{name, shape, types, vars}].  The Operator is built with problem.objects, as the library's
+    pipeline does.  Observable per action: one row of bits over ents per quantifier j -
+      eff        row j: (hit<j> e) is in the successor of the state where every (m<k> e') holds
+      pre, npre  row j: the action is NOT applicable in the state where every (m<k> e') holds except (m<j> e)
+      when       row j: (fin kobject) is NOT in the successor of that state
+      neff       row 1: (hit1 e) in the successor of the all-true state; row 2: NO (hit1 .) in the successor of the
+                 state without (m2 e)
+    rows are joined by '|'; the whole answer is 'E' when the library raised."""
+    try:
+        domain = parse_domain_text(job["domain_text"])
+    except Exception as e:  # noqa
+        return exc(e)
+    names, objects, ents = job["names"], job["objects"], job["ents"]
+    out = {"types": sorted(domain.types), "table": type_table(domain, names), "edges": hierarchy_edges(domain),
+           "quant": {}}
+    ent_names = [n for n, _ in ents]
+    nrows = max(len(a["types"]) for a in job["acts"])
+    problems = {}
+
+    def problem_without(j, e):
+        """the problem whose initial state has every (m<k> e') except (m<j> e); (None, None) = nothing left out"""
+        if (j, e) not in problems:
+            init = " ".join("(m%d %s)" % (k, x) for k in range(1, nrows + 1) for x in ent_names if (k, x) != (j, e))
+            p = write_tmp(problem_text(objects, init=init))
+            try:
+                problems[(j, e)] = ProblemParser(p, domain).parse_problem()
+            finally:
+                p.unlink()
+        return problems[(j, e)]
+
+    def facts(state):
+        return state.serialize()
+
+    for act in job["acts"]:
+        name, shape, n = act["name"], act["shape"], len(act["types"])
+        rows = []
+        try:
+            full = problem_without(None, None)
+            op = Operator(domain.actions[name], domain, [], full.objects)
+            if shape == "eff":
+                text = facts(op.apply(fresh_state(full)))
+                for j in range(1, n + 1):
+                    rows.append("".join("1" if ("(hit%d %s)" % (j, e)) in text else "0" for e in ent_names))
+            elif shape in ("pre", "npre"):
+                for j in range(1, n + 1):
+                    row = ""
+                    for e in ent_names:
+                        prob = problem_without(j, e)
+                        op_j = Operator(domain.actions[name], domain, [], prob.objects)
+                        row += "0" if op_j.is_applicable(fresh_state(prob)) else "1"
+                    rows.append(row)
+            elif shape == "when":
+                for j in range(1, n + 1):
+                    row = ""
+                    for e in ent_names:
+                        prob = problem_without(j, e)
+                        op_j = Operator(domain.actions[name], domain, [], prob.objects)
+                        row += "0" if "(fin kobject)" in facts(op_j.apply(fresh_state(prob))) else "1"
+                    rows.append(row)
+            elif shape == "neff":
+                text = facts(op.apply(fresh_state(full)))
+                rows.append("".join("1" if ("(hit1 %s)" % e) in text else "0" for e in ent_names))
+                row = ""
+                for e in ent_names:
+                    prob = problem_without(2, e)
+                    op_j = Operator(domain.actions[name], domain, [], prob.objects)
+                    row += "0" if "(hit1 " in facts(op_j.apply(fresh_state(prob))) else "1"
+                rows.append(row)
+            else:
+                raise ValueError("unknown shape " + shape)
+            out["quant"][name] = "|".join(rows)
+        except Exception as e:  # noqa
+            out["quant"][name] = "E"
+    return out
